@@ -17,8 +17,9 @@ def reference(line):
     return (name, line[i + 1:].strip(b" \t"))
 
 
-def evaluate(P, lines):
-    """feed `lines` (bytes, without CRLF; the terminating empty line is added) to evhttp_parse_headers_; -> (status-name, [(name, value)]) or ('unknown', why)"""
+def evaluate(P, lines, carried=None, final=True):
+    """feed `lines` (bytes, without CRLF; the terminating empty line is added when `final`) to evhttp_parse_headers_; `carried` = header fields stored by
+    earlier calls for the same message.  -> (status-name, ((name, value), ...)) or ('unknown', why)"""
     f = P.fn("evhttp_parse_headers_")
     g = P.fn("evhttp_add_header")
     req = ["var", f.params[0][0], "param"]
@@ -27,7 +28,7 @@ def evaluate(P, lines):
         its = dict(e["items"])
         if "ALL_DATA_READ" in its:
             names = {v: n for n, v in e["items"]}
-    env = {"#typed": 1, req[1]: 1, f.params[1][0]: 77, "#lines": tuple(lines) + (b"",), "#hdrs": (), "event_debug_logging_mask_": 0,
+    env = {"#typed": 1, req[1]: 1, f.params[1][0]: 77, "#lines": tuple(lines) + ((b"",) if final else ()), "#hdrs": tuple(carried or ()), "event_debug_logging_mask_": 0,
            nkey(["fld", req, "evhttp_request.input_headers", "->"]): 5, nkey(["fld", req, "evhttp_request.headers_size", "->"]): 0, nkey(["fld", req, "evhttp_request.evcon", "->"]): 0}
 
     def setvar(arg, val, e_):
@@ -101,7 +102,17 @@ def evaluate(P, lines):
                     alts.append((evalx(normx(o2.at.e[1]), o2.env, P), {"#hdrs": o2.env["#hdrs"]}))
                 return alts or "impure"
             if n == "evhttp_append_to_last_header":
-                e_["#hdrs"] = e_["#hdrs"] + ((b"+", evalx(normx(a[1]), e_, P).text()),)
+                # the continuation is appended to the field stored last for this message; a NULL first argument (no list / no field to extend) fails
+                try:
+                    tgt = evalx(normx(a[0]), e_, P)
+                except EvalError:
+                    tgt = 1         # not a value the evaluation tracks (e.g. a pointer taken from the list): taken to designate a field
+                if tgt == 0 or not e_["#hdrs"]:
+                    return -1
+                ln_ = evalx(normx(a[1]), e_, P).text().strip(b" \t")
+                hs = list(e_["#hdrs"])
+                hs[-1] = (hs[-1][0], hs[-1][1] + b" " + ln_)
+                e_["#hdrs"] = tuple(hs)
                 return 0
             if n == "event_mm_free_":
                 return 0
@@ -133,6 +144,40 @@ LINES = [b"Host: x", b"Host:x", b"Host:   x  ", b"X-Empty:", b"a!#$%&'*+-.^_`|~9
          b"Host : x", b"Content-Length : 5", b"Host\t: x", b"Ho st: x", b": x", b"Host", b"Ho(st: x", b"Ho\"st: x", b"Ho\x7fst: x", b"Ho\x01st: x", b"H\xf6st: x", b"Host@x: y", b"Ho/st: x"]
 
 
+FOLDED = [
+    ([b"X-Fold: one", b" two"], [(b"X-Fold", b"one two")]),
+    ([b"A: 1", b"X-Fold: one", b"\ttwo", b"  three", b"B: 2"], [(b"A", b"1"), (b"X-Fold", b"one two three"), (b"B", b"2")]),
+]
+
+
+def fold_cases(P, r, f):
+    """obsolete line folding, and header sections that arrive in two reads (the parser is re-entered with the rest): same fields whatever the cut"""
+    nb = 0
+    fams = FOLDED + [([b"Host: x", b"Content-Length: 5", b"X: y"], [(b"Host", b"x"), (b"Content-Length", b"5"), (b"X", b"y")])]
+    for lines, want in fams:
+        for k in range(0, len(lines) + 1):
+            if k == 0:
+                got = evaluate(P, lines)
+            else:
+                g1 = evaluate(P, lines[:k], final=False)
+                if g1[0] == "unknown":
+                    got = g1
+                elif g1[0] != "MORE_DATA_EXPECTED":
+                    got = g1
+                else:
+                    got = evaluate(P, lines[k:], carried=g1[1])
+            if got[0] == "unknown":
+                r.brk("evhttp_parse_headers_ not evaluable on %r cut after line %d: %s" % (lines, k, got[1]))
+                return
+            ok = got == ("ALL_DATA_READ", tuple(want))
+            r.inst((tuple(lines), k), {"lines": [x.decode("latin-1") for x in lines], "second_read_starts_at_line": k, "libevent": [got[0], [[a.decode("latin-1"), b.decode("latin-1")] for a, b in got[1]]]})
+            if not ok and nb < 4:
+                nb += 1
+                r.bad("K6:evhttp_parse_headers_:%s" % ("segmentation-dependent" if k else "fold"), "%s:%d" % (f.file, f.line), f.name,
+                      "header section %r %s gives %s %s; expected the fields %s (a continuation line extends the field before it, also when it arrives in a later read)" % (
+                          lines, ("with the second read starting at line %d" % k) if k else "in one read", got[0], list(got[1]), want))
+
+
 def rule_fieldname(P, rid):
     from .core import Rule
     r = Rule(rid, "K6", "received header lines: accepted exactly when the field name is a token directly followed by ':'; value trimmed of surrounding white space", floor=15)
@@ -156,6 +201,7 @@ def rule_fieldname(P, rid):
                       "header line %r is accepted as %s; RFC 9112 5.1 / RFC 9110 5.1: the field name must be a token immediately followed by ':' — the message has to be rejected (a field the framing code does not recognise, e.g. \"Content-Length : 5\", changes where the message ends)" % (ln, list(got[1])))
             else:
                 r.bad("K6:evhttp_parse_headers_:valid-line-misparsed", "%s:%d" % (f.file, f.line), f.name, "header line %r gives %s %s; RFC: %s" % (ln, got[0], list(got[1]), want[1]))
+    fold_cases(P, r, f)
     seen, uniq = set(), []
     for f_ in r.findings:
         if f_.key not in seen:
